@@ -14,6 +14,10 @@ CLAIMED = {
          "Proof for the modelled core: C03_token_roundtrip quantifies over every leaf-selection function, predictor state, previous-channel set and sample list; C03_rct_inv_fwd over all types/permutations; C03_squeeze_line_inv_fwd over every tendency function. Partial: flattened-tree = tree (incl. table compilation), predictor-state = grid neighbours, palette and the group partition are tied to the code by the differential run only; entropy coding is C04's.",
          "Trusted: Lean kernel + standard axioms; the reference encoder's bit-level serialisation (validated by the real decoder accepting and reproducing every image); harness. Independence of the encoder is of definition (Spec leaf selection / forward transforms), not authorship.",
          "DESIGN.md §4 C03"),
+ "C10": ("Lean 4 theorems about an executable model of ContainerBoxHeader::parse and the ContainerParser state machine (all byte strings, all chunkings, all Spec files) + differential correspondence of the model with the public jxl_bitstream::ContainerParser on generated container files under whole/chunked/bytewise/exhaustive 2-way feeding",
+         "Proof: header parse/serialise round trip (32-bit, 64-bit, to-end-of-file) and need-more-data on every proper header prefix; chunking invariance of the concatenation-normalised event stream for every byte string and every chunking (unconsumed bytes re-offered); for every well-formed Spec file the exact event stream, hence codestream = concatenated jxlc/jxlp payloads in order and every aux box delivered with type and exact raw payload; ill-formed layouts (duplicate/out-of-order jxlp, jxlc/jxlp mixing, jxlp after the final one, undersized jxlp/brob/size fields, brob of a reserved type) give an error; consumed <= input, strict progress measure, no panic site reachable. Partial: theorems are about the model (tied to the code by the correspondence run); Brotli decompression of brob payloads and AuxBoxList/eof handling in jxl-oxide are not modelled.",
+         "Trusted: Lean kernel, axioms propext/Classical.choice/Quot.sound, the correspondence harness, usize=64 bit, caller follows the documented re-offer protocol. Models the code WITH the F1 repair (64-bit header split across feeds); the unrepaired behaviour is kept as parseHeaderOld with its witness.",
+         "DESIGN.md §4 C10, §8 F1"),
 }
 NOT_YET = "machinery for this property is not built yet in this snapshot (planned, see DESIGN.md §4/§10); it is claimed as soon as its theorems and correspondence check land"
 
